@@ -390,7 +390,8 @@ def monitorHold (cfg : SessCfg) (c : ConnInfo) (cbs : List CbCall) (tObsEnd : Na
       for t in pts do
         -- (the remote's clock for "sent" is the moment it read the bytes: an interval in which it deliberately did not
         -- read says nothing about when corebgp sent)
-        let blind := c.pauses.any fun (a, b) => a < t && prev < b
+        -- (and while the backlog drains afterwards the read times say nothing either: from a pause on, not judged)
+        let blind := c.pauses.any fun (a, _) => a < t
         if t > prev + limit && !blind then
           fails := fails ++ [s!"C06 {(t - prev) / ms} ms passed without corebgp sending a KEEPALIVE or UPDATE (hold time {hold} s: at most about one third)"]
         prev := max prev t
